@@ -299,6 +299,7 @@ type wcase struct {
 	hung map[string]bool // later calls that did not return
 
 	release func() // i-pending: lets the parked Attaching hook return
+	afterSubject func() // k-txblock on inproc: evaluated after the subject's Close, before the peer is closed
 	after   func() // j-handler: the application shuts its own HTTP server down once the sockets are closed
 }
 
@@ -400,6 +401,8 @@ func (w *wcase) run() {
 		w.sitPendingAccept()
 	case "j-handler":
 		w.sitHandlerMode()
+	case "k-txblock":
+		w.sitTxBlock()
 	default:
 		w.setupFail("unknown situation %s", w.spec.Sit)
 	}
@@ -550,7 +553,7 @@ func (w *wcase) connectPair(peerKind string) {
 	w.subj = w.newSock(w.k, "subject")
 	w.peer = w.newSock(kindByName(peerKind), "peer")
 	w.socks = []*sock{w.subj, w.peer}
-	if w.spec.Sit == "d-send" {
+	if w.spec.Sit == "d-send" || w.spec.Sit == "k-txblock" {
 		setOpt(w.subj.s, mangos.OptionWriteQLen, 1)
 		setOpt(w.peer.s, mangos.OptionReadQLen, 1)
 	}
@@ -940,8 +943,11 @@ func (w *wcase) closeAndJudge() {
 			w.release()
 		}()
 	}
-	for _, x := range w.socks {
+	for i, x := range w.socks {
 		w.closeSock(x)
+		if i == 0 && w.afterSubject != nil {
+			w.afterSubject()
+		}
 	}
 	atomic.StoreInt32(&w.closedFlag, 1)
 	if w.after != nil {
@@ -1034,8 +1040,9 @@ func (w *wcase) closeAndJudge() {
 	w.rawMu.Lock()
 	raws := append([]net.Conn{}, w.rawConns...)
 	w.rawMu.Unlock()
-	if (w.spec.Sit == "f-stall" || w.spec.Sit == "h-dialstall") && !leaked {
-		// (a goroutine that is still parked on the connection has been reported already)
+	if (w.spec.Sit == "f-stall" || w.spec.Sit == "h-dialstall" || w.spec.Sit == "k-txblock") && !leaked {
+		// (a goroutine that is still parked on the connection has been reported already;
+		// k-txblock: the raw peer first drains what the subject had written)
 		for _, c := range raws {
 			if !sawEOF(c, eofBound) {
 				res.fail("connection-left-open", w.spec.Var, "fail", "the stalled connection is still open %v after the socket was closed although no goroutine is left", eofBound)
